@@ -547,6 +547,15 @@ static void run_c04() {
         if (elapsed() > cfg.deadline) { deadline_hit = true; break; }
         run_termset(*g_list, ts, inputs, false, 0);
     }
+    if (cfg.shard == 0 && !deadline_hit) {
+        // one-dimensional sweep (not exhaustive): lexeme lengths around 2^8, 2^16 and 2^17 - the lexeme handed to the functor must be the whole slice
+        std::vector<std::string> longs;
+        for (size_t n : {255u, 256u, 257u, 65534u, 65535u, 65536u, 65537u, 70000u, 131071u, 131072u, 131073u, 200000u}) { longs.push_back(std::string(n, 'a')); longs.push_back(std::string(n, 'a') + "b" + std::string(n, 'a')); longs.push_back("b " + std::string(n, 'a') + " b"); }
+        long saved = g_step_limit; g_step_limit = 10000000;
+        run_termset(*g_list, {{'r', "a+"}, {'c', "b"}}, longs, false, 0);
+        run_termset(*g_list, {{'c', "b"}, {'r', "[ac]+"}}, longs, false, 0);
+        g_step_limit = saved; ctr["C04.long_lexeme_sweep_inputs"] += (long)longs.size() * 2;
+    }
 }
 
 // ordered term sets of size 4..6 from a pool in which most terms recognise "a": more terms end in one state than it has slots for
